@@ -182,16 +182,18 @@ func properties() map[string]*Property {
 		},
 	}
 	ps["C16"] = &Property{ID: "C16", Level: "proof",
-		Jobs: append(framesOnly(allContractFns()...), hostile("ReadStringBytes", "ReadString", "UnescapeStringContent", "unescapeStringContent", "appendRemainderOfString",
+		Jobs: append(append(framesOnly(allContractFns()...), hostile("ReadStringBytes", "ReadString", "UnescapeStringContent", "unescapeStringContent", "appendRemainderOfString",
 			"unescapeUnicodeChar", "growBytesSliceCapacity", "errUnexpectedByteInString", "getu4", "countWhitespace")...),
-		Kinds:  map[string]bool{"frame": true, "ensures": true, "inv-init": true, "inv-preserved": true, "requires@call": true},
+			// scratch independence of the Buffer-taking functions: the relational proofs of C14
+			relJobs("skipValue", "skipValueFast", "handleArrayValues", "handleObjectValues", "SkipValue", "SkipValueFast", "Valid", "HandleArrayValues", "HandleObjectValues")...),
+		Kinds:  map[string]bool{"frame": true, "ensures": true, "inv-init": true, "inv-preserved": true, "requires@call": true, "rel": true},
 		Labels: []string{"C16"},
 		Extra:  []string{"global-store-scan", "bounded-append-semantics"},
 		Assume: []string{
 			"destination and input slices do not overlap (a destination overlapping the input would itself be a write to the input)",
 			"handlers do not write the input (user code)",
 		},
-		Subset: "(a) no function under contract stores into an input region (every store and in-place append has a frame obligation), and no function of the module stores into package-level memory; (b) destination-taking functions return, on success, a slice whose prefix is the destination's prior contents (ReadStringBytes, UnescapeStringContent, unescapeStringContent, appendRemainderOfString, unescapeUnicodeChar, growBytesSliceCapacity); (c) every returned string is the result of a []byte->string conversion. NOT covered: equality of the appended suffix with the empty-destination output and independence from scratch-buffer contents (2-safety, see C14 for the stack), and value trees (reason as for C15)",
+		Subset: "(a) no function under contract stores into an input region (every store and in-place append has a frame obligation), and no function of the module stores into package-level memory; (b) destination-taking functions return, on success, a slice whose prefix is the destination's prior contents (ReadStringBytes, UnescapeStringContent, unescapeStringContent, appendRemainderOfString, unescapeUnicodeChar, growBytesSliceCapacity); (c) every returned string is the result of a []byte->string conversion. (d) results of the Buffer-taking functions do not depend on the Buffer's stack slice (the relational proofs of C14, repeated here). NOT proved: equality of the appended suffix with the empty-destination output (bounded stand-in only), independence of ReadString from the prior contents of *buf, and value trees (reason as for C15)",
 	}
 	ps["C18"] = &Property{ID: "C18", Level: "proof",
 		Jobs:   framesOnly(allContractFns()...),
